@@ -717,7 +717,7 @@ func (ex *Exec) specCall(x ECall, env *SpecEnv) Val {
 		}
 		return Scalar{App(SInt, g, args...), intT}
 	}
-	sf := ex.prog.Contracts.Specs[id.Name]
+	sf := ex.prog.Contracts.Spec(id.Name, pkgPathOf(env.pkg))
 	if sf == nil {
 		ex.specFail("unknown specification function %s", id.Name)
 	}
@@ -878,4 +878,11 @@ func (ex *Exec) coerceToType(a Val, pt types.Type) Val {
 		return a
 	}
 	return Scalar{ex.boxIface(a, a.GoType()), pt}
+}
+
+func pkgPathOf(p *types.Package) string {
+	if p == nil {
+		return ""
+	}
+	return p.Path()
 }
